@@ -520,8 +520,8 @@ fn finish(id: usize, raw: (Vec<(u8, u8, Vec<(u8, u8)>, Option<u8>, u8)>, Option<
             let a8 = a16 as u8;
             if !used_codes.contains(&a8) && (a8 as u16) < limit {
                 used_codes.push(a8);
-                // byte-literal rendering is not accepted inside #[alt] consistently: keep integer renderings
-                out[i].alts.push((a8, render_int(a8, style % 8)));
+                // any literal form is a valid pattern inside #[alt(..)], byte literals included
+                out[i].alts.push((a8, render_int(a8, *style)));
             }
         }
     }
@@ -587,7 +587,10 @@ pub fn gen_c17_pos(seed: u64, n: usize) -> (String, Vec<EnumDecl>) {
     // fixed boundary declarations: largest discriminant 255, 128, 127, 1; explicit widths
     let mut two_attrs = mk_fixed(10, &[("A", 0, "0"), ("C", 1, "1"), ("G", 4, "0b100")], Some(4));
     two_attrs.variants[0].alts = vec![(2, "2".into()), (3, "0x3".into()), (9, "9".into())];
-    two_attrs.variants[2].alts = vec![(6, "6".into()), (7, "0b111".into())];
+    two_attrs.variants[2].alts = vec![(6, "b'\\x06'".into()), (7, "0b111".into())];
+    let mut ascii_coded = mk_fixed(11, &[("A", b'A', "b'A'"), ("C", b'C', "b'C'"), ("G", b'G', "b'G'"), ("T", b'T', "b'T'")], None);
+    ascii_coded.variants[0].alts = vec![(b'a', "b'a'".into())];
+    ascii_coded.variants[3].alts = vec![(b't', "b't'".into()), (b'U', "b'U'".into())];
     two_attrs.variants[2].display = Some(b'*');
     let mut fixed: Vec<EnumDecl> = vec![
         mk_fixed(0, &[("A", 0, "0"), ("B", 255, "255")], None),
@@ -602,6 +605,7 @@ pub fn gen_c17_pos(seed: u64, n: usize) -> (String, Vec<EnumDecl>) {
         mk_fixed(9, &[("W", 7, "0o7"), ("Z", 2, "2")], Some(3)),
     ];
     fixed.push(two_attrs);
+    fixed.push(ascii_coded);
     let mut list = vec![];
     for i in 0..n {
         list.push(if i < fixed.len() { fixed[i].clone() } else { finish(i, sample(&mut r, &decl_strategy())) });
